@@ -256,7 +256,8 @@ def vocabulary(ctx, spec, ops, lang, canon, sub, sup, replay):
                 ns = str(lang.namespace)
                 vtext = "ok root - out - " + " ".join(sorted("(" + " ".join(GG.node_str(x, ns, bmap) for x in t) + ")" for t in gm))
             except Exception as ex:  # noqa
-                vtext = "E:X:" + type(ex).__name__
+                # the declared refusal (a described type has a non-canonical parameter: D24) is an outcome the model has too
+                vtext = ("E:" if type(ex).__name__ == "NonCanonicalTypeError" else "E:X:") + type(ex).__name__
             ctx.case(f"(gvocab {bits} {'T' if closure else 'F'})", vtext, dict(replay, closure=closure, bits=bits), nontrivial=len(canon) >= 3,
                 key=("vocab", str(replay.get("listed")), replay.get("top"), replay.get("bottom"), closure, bits, id(spec)), cmp=GG.iso)
             ctx.count("vocabulary_graphs_compared")
